@@ -4,9 +4,22 @@ manifest never drifts from what ./check actually registers)."""
 import json, os, sys
 ROOT = os.path.dirname(os.path.dirname(os.path.abspath(__file__)))
 
-HOOK_COMMITS = ["dd6fa0d"]
+HOOK_COMMITS = ["dd6fa0d"]  # fix commits (not hooks): 3bcfa81 (F2), 6fbb873 (F1)
 
+WORLD_NOTE = "Trusted: the BOLT-2/3 reference model in harness/world/src/model.rs, the harness's chain/persistence models, determinism shim (getrandom), and the taps (signer wrapper, Persist, chain::Watch wrapper, broadcaster). Nodes use the production feature set plus `_verif`/`unsafe_revoked_tx_signing`; fee estimators move together. Known findings: /verif/known_findings.json."
 CLAIMED = {
+    "C01": dict(category="exploration", design_ref="DESIGN.md §5.1, §6 C01",
+        technique="runtime monitoring: wire-driven BOLT-2/3 reference model checked online against every commitment reaching the channel signer tap; honest-failure, closing-tx and send-limit probe monitors over a seeded message-level scheduler",
+        text="Real LDK nodes are run under a seeded scheduler that delivers every message separately, interleaves sends at boundary amounts, claims, fails, fee updates, disconnects and mining; every commitment either node signs or accepts is compared with an independent reference model (balances, HTLC set, dust, fee, anchors, output sum, funding input), holder/counterparty agreement is checked per number, any error/close without an injected fault is a violation, cooperative-close outputs are checked against final model balances, and reported send limits are probed inside/outside on quiet channels. Quick ~1.6k runs / ~10^5 commitments; thorough ~48k runs. Exploration, not proof: the quantifier is over unbounded schedules.",
+        note=WORLD_NOTE),
+    "C05": dict(category="exploration", design_ref="DESIGN.md §6 C05",
+        technique="runtime monitoring: signer/wire/broadcast-tap automaton kept outside the nodes (survives restarts) checking revocation order, counterparty-commitment sequencing, secret/point consistency and non-use of revoked state",
+        text="An automaton over the signer tap (release_commitment_secret, validate_holder_commitment, sign_counterparty_commitment, validate_counterparty_revocation, sign_holder_*), revoke_and_ack messages and broadcasts checks V1-V6 on every event of runs with async persistence, user force-closes and restarts from arbitrary (also stale) manager snapshots. Quick ~1.6k runs; thorough ~48k.",
+        note=WORLD_NOTE),
+    "C09": dict(category="exploration", design_ref="DESIGN.md §6 C09",
+        technique="runtime monitoring: dependency-order monitor over the chain::Watch/Persist taps (update ids, step contents via the `_verif` accessor, completion instants) against the message, broadcast and event streams",
+        text="On a line of three nodes with asynchronous and deferred persistence, completions delivered first/last/random, disconnections and restarts with in-flight writes, the monitor checks that update ids are gap-free (replays identical), that commitment_signed / revoke_and_ack / channel_ready / funding broadcast / PaymentClaimed are only released once the update they depend on and all earlier ones completed, that preimage updates are handed out in the learning call, and that peers never hit an error under delayed persistence. Quick ~1.2k runs (~4*10^4 dependency evaluations); thorough ~36k runs.",
+        note=WORLD_NOTE),
     "C16": dict(
         category="exploration",
         technique="runtime monitoring: independent route-validity oracle over find_route on generated graphs (reference-model monitor), reachability oracle for completeness in the slack regime",
